@@ -25,6 +25,7 @@ Definition new_area {T} (id desc pid crs w h : Z) (ext : T * T * T * T) : garea 
 Definition set_crop_offset {T} (g : garea T) (o : Z * Z) : garea T :=
   mk_garea (g_area g) o (g_id g) (g_desc g) (g_pid g) (g_crs g).
 Definition area_extent {T} (a : area T) : T * T * T * T := (xmin a, ymin a, xmax a, ymax a).
+Definition garea_extent {T} (g : garea T) : T * T * T * T := area_extent (g_area g).
 
 (* slice(start, stop, step): the model is restricted to unit step; [step] is the literal 1 produced by
    [indices] wherever the translated code builds a slice *)
@@ -41,11 +42,18 @@ Section SliceArea.
 
   (* hand-written mirror of AreaDefinition.__getitem__ for step None/1 (the regenerated definition
      Gen.GenC10.gen_area_getitem is proved equal to it over the reals in Proofs/C10_slice.v) *)
-  Definition slice_extent (g : garea T) (yi xi : pslice) : T * T * T * T :=
+  Definition slice_extent_centre (g : garea T) (yi xi : pslice) : T * T * T * T :=
     (add OP (upl_x OP (g_area g)) (mul OP (sub OP (ofZ OP (sstart xi)) half) (gpsx g)),
      sub OP (upl_y OP (g_area g)) (mul OP (sub OP (ofZ OP (sstop yi)) half) (gpsy g)),
      add OP (upl_x OP (g_area g)) (mul OP (sub OP (ofZ OP (sstop xi)) half) (gpsx g)),
      sub OP (upl_y OP (g_area g)) (mul OP (sub OP (ofZ OP (sstart yi)) half) (gpsy g))).
+  (* a side of the slice that lies on the border of the area keeps the border coordinate *)
+  Definition slice_extent (g : garea T) (yi xi : pslice) : T * T * T * T :=
+    let '(e0, e1, e2, e3) := slice_extent_centre g yi xi in
+    (if sstart xi =? 0 then xmin (g_area g) else e0,
+     if sstop yi =? gheight g then ymin (g_area g) else e1,
+     if sstop xi =? gwidth g then xmax (g_area g) else e2,
+     if sstart yi =? 0 then ymax (g_area g) else e3).
 
   Definition area_getitem (g : garea T) (key : oslice * oslice) : garea T :=
     let '(ys, xs) := key in
